@@ -4,6 +4,7 @@ import (
 	"go/ast"
 	"go/token"
 	"go/types"
+	"golang.org/x/tools/go/ssa"
 	"strings"
 	"text/template/parse"
 
@@ -212,57 +213,71 @@ func checkSetReversible(c *Ctx) {
 		ok := loop != nil && isField(info, loop.X, pMigrate, "Plan", "Changes")
 		c.Check("R17b", "SetReversible|ranges over p.Changes", fi.Decl.Pos(), ok, "SetReversible must range over all of p.Changes")
 		if loop != nil {
-			// flag variable: the bool assigned to p.Reversible
-			var flag types.Object
-			ast.Inspect(fi.Decl.Body, func(m ast.Node) bool {
-				if as, ok := m.(*ast.AssignStmt); ok && len(as.Lhs) == 1 && isField(info, as.Lhs[0], pMigrate, "Plan", "Reversible") {
-					if id, ok := as.Rhs[0].(*ast.Ident); ok {
-						flag = info.ObjectOf(id)
-					}
+			// no early exit from the loop other than an error return
+			early := false
+			ast.Inspect(loop.Body, func(m ast.Node) bool {
+				if s, ok := m.(*ast.BranchStmt); ok && (s.Tok == token.BREAK || s.Tok == token.GOTO) {
+					early = true
 				}
 				return true
 			})
-			clears, sets, early := false, false, false
-			ast.Inspect(loop.Body, func(m ast.Node) bool {
-				switch s := m.(type) {
-				case *ast.AssignStmt:
-					for i, l := range s.Lhs {
-						if id, ok := l.(*ast.Ident); ok && flag != nil && info.ObjectOf(id) == flag && i < len(s.Rhs) {
-							if tv := info.Types[s.Rhs[i]]; tv.Value != nil && tv.Value.String() == "false" {
-								// must be guarded by len(stmts) == 0
-								clears = true
-							} else {
-								sets = true
+			consults := nodeHasCall(info, loop.Body, c.viaHelpers(isCallTo(pMigrate, "Change", "ReverseStmts"), 2)) != nil
+			c.Check("R17b", "SetReversible|every change's ReverseStmts is consulted", loop.Pos(), consults && !early, "SetReversible must look at Change.ReverseStmts() of every planned change (consulted=%v, loop can be left early=%v)", consults, early)
+			// the stored flag depends on those results and is not a constant (SSA backward slice incl. controlling conditions)
+			dep, konst := false, false
+			if fn := c.SSAFunc(fi); fn != nil {
+				for _, blk := range fn.Blocks {
+					for _, in := range blk.Instrs {
+						st, ok := in.(*ssa.Store)
+						if !ok {
+							continue
+						}
+						fa, ok := st.Addr.(*ssa.FieldAddr)
+						if !ok || fieldName(fa) != "Reversible" {
+							continue
+						}
+						if _, isConst := st.Val.(*ssa.Const); isConst {
+							konst = true
+						}
+						seen := map[ssa.Value]bool{}
+						var visit func(v ssa.Value)
+						visit = func(v ssa.Value) {
+							if v == nil || seen[v] {
+								return
+							}
+							seen[v] = true
+							if call, ok := v.(*ssa.Call); ok {
+								if callee := call.Common().StaticCallee(); callee != nil {
+									if obj, ok := callee.Object().(*types.Func); ok && c.mayReach(obj, func(g *types.Func) bool { return funcIs(g, pMigrate, "Change", "ReverseStmts") }, 2) {
+										dep = true
+									}
+								}
+							}
+							if ins, ok := v.(ssa.Instruction); ok {
+								for _, op := range ins.Operands(nil) {
+									if op != nil {
+										visit(*op)
+									}
+								}
+								if phi, ok := v.(*ssa.Phi); ok {
+									// conditions that decide which edge reaches the phi
+									for _, pred := range phi.Block().Preds {
+										for b := pred; b != nil; b = b.Idom() {
+											if len(b.Instrs) > 0 {
+												if iff, ok := b.Instrs[len(b.Instrs)-1].(*ssa.If); ok {
+													visit(iff.Cond)
+												}
+											}
+										}
+									}
+								}
 							}
 						}
-					}
-				case *ast.BranchStmt:
-					if s.Tok == token.BREAK || s.Tok == token.GOTO {
-						early = true
+						visit(st.Val)
 					}
 				}
-				return true
-			})
-			c.Check("R17b", "SetReversible|clears flag, never sets it in the loop", loop.Pos(), flag != nil && clears && !sets && !early, "SetReversible must only ever clear the flag inside the loop (clears=%v sets=%v early-exit=%v)", clears, sets, early)
-			// the clearing is guarded by `len(stmts) == 0` where stmts is the result of ReverseStmts
-			guardOK := false
-			ast.Inspect(loop.Body, func(m ast.Node) bool {
-				ifs, ok := m.(*ast.IfStmt)
-				if !ok {
-					return true
-				}
-				be, ok := ifs.Cond.(*ast.BinaryExpr)
-				if !ok || be.Op != token.EQL {
-					return true
-				}
-				if a := lenArg(info, be.X); a != nil {
-					if tv := info.Types[be.Y]; tv.Value != nil && tv.Value.String() == "0" {
-						guardOK = true
-					}
-				}
-				return true
-			})
-			c.Check("R17b", "SetReversible|guard len(reverse stmts)==0", loop.Pos(), guardOK && nodeHasCall(info, loop.Body, isCallTo(pMigrate, "Change", "ReverseStmts")) != nil, "the flag must be cleared exactly when Change.ReverseStmts() is empty")
+			}
+			c.Check("R17b", "SetReversible|the stored flag depends on the reverse statements", loop.Pos(), dep && !konst, "the value SetReversible stores in Plan.Reversible does not depend on Change.ReverseStmts() of the planned changes (or is a constant): an irreversible plan is reported reversible")
 		}
 	}
 	// each PlanChanges calls SetReversible on every success path
@@ -672,4 +687,16 @@ func printsDot(trees map[string]*parse.Tree, body *parse.ListNode) bool {
 	}
 	walk(body, 0)
 	return found
+}
+
+// fieldName returns the name of the struct field addressed by fa.
+func fieldName(fa *ssa.FieldAddr) string {
+	t := fa.X.Type()
+	if p, ok := t.Underlying().(*types.Pointer); ok {
+		t = p.Elem()
+	}
+	if st, ok := t.Underlying().(*types.Struct); ok && fa.Field < st.NumFields() {
+		return st.Field(fa.Field).Name()
+	}
+	return ""
 }
